@@ -16,6 +16,7 @@ import (
 	"path/filepath"
 	"strconv"
 	"strings"
+	"time"
 
 	"github.com/lianxiangcloud/linkchain/consensus"
 	"github.com/lianxiangcloud/linkchain/libs/ser"
@@ -30,6 +31,7 @@ func (P) Rule() string {
 		"every single-byte corruption at every offset of every file (crc, length and payload fields), each followed by read/search on the real decoder; " +
 		"(B) random sequences of write/sync/rotate/tick/crash/read/search/disk with records from 30 B to 45 KiB so that the 40960-byte bufio buffer flushes mid-record; " +
 		"(C) rotation with an un-flushed buffer (straddling records); (D) malformed stream: garbage, bad crc, valid crc over an undecodable payload, zero and oversized length fields; " +
+		"(E) long-lived groups (index >= 1000); (F) catchupReplay of a real ConsensusState over intact / cut / flipped logs; (G) the real 5-second ticker: head and total size limits, deletion of the oldest files, stale minIndex, restart; (H) baseWAL as a service (Start/Write/WriteSync/Stop); (I) payload == maxMsgSizeBytes, bound-1 (bound+1 gated: known defect); " +
 		"non-trivial = at least two records written and at least one damaged/rotated/crashed read or search; distinct = distinct op sequence"
 }
 
@@ -45,6 +47,10 @@ type exec struct {
 	enc         *consensus.WALEncoder
 	table       [][]byte
 	ehs         []int64
+	keys        map[string]int // replay-log key of a declared payload (catchup op)
+	openedAt    time.Time      // when OpenGroup created the group's 5-second ticker
+	started     bool           // Group.Start was called (processTicks is running)
+	ticks       int
 	snapF       [][]byte
 	snapH       []byte
 	snapHasHead bool
@@ -59,11 +65,16 @@ func (e *exec) open() {
 		panic("harness: NewWAL: " + err.Error())
 	}
 	e.wal = w
+	e.openedAt, e.started, e.ticks = time.Now(), false, 0
 	e.enc = consensus.NewWALEncoder(w.Group())
 }
 
 func (e *exec) closeGroup() {
 	if e.wal != nil {
+		if e.started {
+			e.wal.Group().Stop() // ends processTicks (flushes)
+			e.started = false
+		}
 		e.wal.Group().Head.Close() // stops the AutoFile ticker, closes the handle; does NOT flush the bufio buffer
 		e.wal = nil
 	}
@@ -83,6 +94,7 @@ func (e *exec) reset() {
 	lastDir = e.dir
 	e.path = filepath.Join(e.dir, "wal")
 	e.table, e.ehs = nil, nil
+	e.keys = map[string]int{}
 	e.hasSnap = false
 	e.open()
 }
@@ -203,6 +215,9 @@ func (e *exec) Exec(op string) string {
 			return "reenc-differs"
 		}
 		e.declare(p, argEh(toks))
+		if k, ok := hx.Arg(toks, "key"); ok {
+			e.keys[k] = e.lookup(p)
+		}
 		if err := e.enc.Encode(&tm); err != nil { // the real WALEncoder on the real Group
 			return "err"
 		}
@@ -330,6 +345,36 @@ func (e *exec) Exec(op string) string {
 			os.Remove(e.path)
 		}
 		return "ok"
+	case "catchup":
+		return e.catchup(e.keys)
+	case "walsvc":
+		seq, _ := hx.Arg(toks, "seq")
+		return e.walsvc(seq)
+	case "gstart": // Group.OnStart: the goroutine that checks the head and total size limits every 5 s
+		if err := g.Start(); err != nil {
+			return "err"
+		}
+		e.started = true
+		return "ok"
+	case "gstop": // Group.OnStop: stops the ticker and flushes
+		if err := g.Stop(); err != nil {
+			return "err"
+		}
+		e.started = false
+		return "ok"
+	case "limits":
+		h, _ := argInt(toks, "head")
+		t, _ := argInt(toks, "total")
+		g.SetHeadSizeLimit(h)
+		g.SetTotalSizeLimit(t)
+		return fmt.Sprintf("head=%d total=%d", g.HeadSizeLimit(), g.TotalSizeLimit())
+	case "waittick": // let the REAL ticker run checkHeadSizeLimit + checkTotalSizeLimit once
+		e.ticks++
+		time.Sleep(time.Until(e.openedAt.Add(time.Duration(e.ticks)*5*time.Second + 450*time.Millisecond)))
+		return "ok"
+	case "ginfo":
+		gi := g.ReadGroupInfo()
+		return fmt.Sprintf("dirmin=%d dirmax=%d total=%d head=%d gmin=%d gmax=%d", gi.MinIndex, gi.MaxIndex, gi.TotalSize, gi.HeadSize, g.MinIndex(), g.MaxIndex())
 	case "read":
 		idx, _ := argInt(toks, "idx")
 		skip, _ := argInt(toks, "skip")
